@@ -149,24 +149,24 @@ type edit struct {
 
 // kinds of edit; editCount lists how many variants (arg values) each has.
 const (
-	edLenPlusRaw   = iota // declared length one more than the content (enclosing lengths untouched)
-	edLenMinusRaw         // declared length one less
-	edLenLong             // non-minimal long-form length
-	edLenIndef            // indefinite length with end-of-contents
-	edLenHuge             // declared length far beyond the data (arg: 4- or 5-byte form)
-	edTagFlip             // arg: class bits ^0x40, ^0x80, ^0xC0, constructed bit ^0x20, high-tag-number form
-	edRetag               // arg: another universal tag
-	edIntSign             // INTEGER: flip the sign bit
-	edIntLead00           // any primitive: prepend one or two 0x00 octets (non-minimal INTEGER, zero-padded key or coordinate)
-	edIntLeadFF           // INTEGER: prepend 0xFF
-	edDelete              // remove the element
-	edDup                 // duplicate the element
-	edSwap                // swap with the next sibling
-	edWrap                // arg: one extra level of nesting (SEQUENCE, [0] EXPLICIT, OCTET STRING)
-	edEmpty               // empty content
-	edGrow                // content + one zero byte (lengths consistent)
-	edShrink              // content minus its last byte (lengths consistent)
-	edResize              // primitive content cut or zero-extended to arg bytes (prefix kept, lengths consistent): mis-sized fields
+	edLenPlusRaw  = iota // declared length one more than the content (enclosing lengths untouched)
+	edLenMinusRaw        // declared length one less
+	edLenLong            // non-minimal long-form length
+	edLenIndef           // indefinite length with end-of-contents
+	edLenHuge            // declared length far beyond the data (arg: 4- or 5-byte form)
+	edTagFlip            // arg: class bits ^0x40, ^0x80, ^0xC0, constructed bit ^0x20, high-tag-number form
+	edRetag              // arg: another universal tag
+	edIntSign            // INTEGER: flip the sign bit
+	edIntLead00          // any primitive: prepend one or two 0x00 octets (non-minimal INTEGER, zero-padded key or coordinate)
+	edIntLeadFF          // INTEGER: prepend 0xFF
+	edDelete             // remove the element
+	edDup                // duplicate the element
+	edSwap               // swap with the next sibling
+	edWrap               // arg: one extra level of nesting (SEQUENCE, [0] EXPLICIT, OCTET STRING)
+	edEmpty              // empty content
+	edGrow               // content + one zero byte (lengths consistent)
+	edShrink             // content minus its last byte (lengths consistent)
+	edResize             // primitive content cut or zero-extended to arg bytes (prefix kept, lengths consistent): mis-sized fields
 	edKinds
 )
 
